@@ -746,7 +746,30 @@ func c17args(cl ssa.CallInstruction) []ssa.Value { return nfCallOf(cl).Args }
 // the call of a closure of f / a helper of the package that performs it on
 // every path. For rules that only need the program point, not the arguments.
 func c17sites(f *ssa.Function, pat string) []ssa.Instruction {
-	return nfAts(nfPlain(nfSites(f, pat)))
+	return nfAts(c17ownSites(f, pat))
+}
+
+// c17ownSites: the resolved sites of pat in f whose effect calls stand in f
+// itself or in a closure of f. A package helper that performs the call
+// somewhere inside (Persist reads the archive too) is not "the call of f": the
+// rules here speak about a particular call of f, its result and its success.
+func c17ownSites(f *ssa.Function, pat string) []nfSite {
+	var out []nfSite
+	for _, s := range nfPlain(nfSites(f, pat)) {
+		own := len(s.Effs) > 0
+		for _, e := range s.Effs {
+			own = own && eng.TopFunc(e.Fn) == eng.TopFunc(f)
+		}
+		if own {
+			out = append(out, s)
+		}
+	}
+	return out
+}
+
+// c17GCallOK is eng.GCallOK over c17ownSites (same description, same key).
+func c17GCallOK(f *ssa.Function, pat string) eng.Guard {
+	return nfOKOf("success edge of "+pat, c17ownSites(f, pat))
 }
 
 // c17originStrings: the origins of v as kind:desc strings, with a call through
@@ -905,7 +928,7 @@ func c17binding(c *eng.Ctx, F *c17fields) {
 			c.Clause("R2", "C17.1")
 			if c.Floor(pf, "success returns of the parsing helper", len(okRets), 1) {
 				c.Cut(pf, "version handed back", okRets, eng.G(pf, `^strings\.HasPrefix\(\)$`, true), nil)
-				c.Cut(pf, "version handed back", okRets, nfGCallOK(pf, `^strconv\.Atoi$`), nil)
+				c.Cut(pf, "version handed back", okRets, c17GCallOK(pf, `^strconv\.Atoi$`), nil)
 			}
 			c.Clause("R5", "C17.1")
 		}
@@ -923,9 +946,9 @@ func c17binding(c *eng.Ctx, F *c17fields) {
 		sinks := instrsOf(fetch)
 		if hcall == nil {
 			c.Cut(f, "key material fetch", sinks, eng.G(f, `^strings\.HasPrefix\(\)$`, true), nil)
-			c.Cut(f, "key material fetch", sinks, nfGCallOK(f, `^strconv\.Atoi$`), nil)
+			c.Cut(f, "key material fetch", sinks, c17GCallOK(f, `^strconv\.Atoi$`), nil)
 		} else {
-			c.Cut(f, "key material fetch", sinks, nfGCallOK(f, `^`+quoteRe(eng.CalleeName(hcall.Common()))+`$`), nil)
+			c.Cut(f, "key material fetch", sinks, c17GCallOK(f, `^`+quoteRe(eng.CalleeName(hcall.Common()))+`$`), nil)
 		}
 		// the convergent-version lookup is keyed by the same version
 		c.Clause("R7", "C17.1")
@@ -1673,9 +1696,9 @@ func c17durable(c *eng.Ctx, F *c17fields) {
 		if c.Floor(f, "handleArchiving call", len(ha), 1) && c.Floor(f, "storage.Put", len(put), 1) {
 			c17rollbackChecks(c, f, "C17.3", []*types.Var{F.archiveVer, F.keys}, ha, "handleArchiving", nil)
 			c.Clause("R2", "C17.3")
-			c.Cut(f, "storage.Put(policy)", put, nfGCallOK(f, `^keysutil\.\(\*Policy\)\.handleArchiving$`), nil)
+			c.Cut(f, "storage.Put(policy)", put, c17GCallOK(f, `^keysutil\.\(\*Policy\)\.handleArchiving$`), nil)
 			c.Cut(f, "storage.Put(policy)", put, eng.G(f, `^\(\*sync/atomic\.Bool\)\.Load\(\)$`, false), nil)
-			c.Cut(f, "nil return", eng.SuccessReturns(f, 0), nfGCallOK(f, `^<logical\.Storage>\.Put$`), nil)
+			c.Cut(f, "nil return", eng.SuccessReturns(f, 0), c17GCallOK(f, `^<logical\.Storage>\.Put$`), nil)
 			c.Clause("R5", "C17.3")
 			var pv []c17pv
 			ent := c17arg(put[0].(ssa.CallInstruction), 1)
@@ -1713,7 +1736,7 @@ func c17durable(c *eng.Ctx, F *c17fields) {
 			c.Cut(f, what, sinks, c17guard("ArchiveVersion <= LatestVersion", c17rel(f, false, ld(F.latest), ld(F.archiveVer), false)), nil)
 			c.Cut(f, what, sinks, c17guard("MinEncryptionVersion == 0 OR MinEncryptionVersion >= MinDecryptionVersion",
 				c17rel(f, false, c17const("0"), ld(F.minEnc), false), c17rel(f, false, ld(F.minEnc), ld(F.minDec), false)), nil)
-			c.Cut(f, what, sinks, nfGCallOK(f, `^keysutil\.\(\*Policy\)\.LoadArchive$`), nil)
+			c.Cut(f, what, sinks, c17GCallOK(f, `^keysutil\.\(\*Policy\)\.LoadArchive$`), nil)
 			// the live map is trimmed only once the archive is safe
 			var dels []ssa.Instruction
 			for _, d := range c17calls(f, `^delete$`) {
@@ -1722,7 +1745,7 @@ func c17durable(c *eng.Ctx, F *c17fields) {
 				}
 			}
 			if c.Floor(f, "delete(p.Keys, ...)", len(dels), 1) {
-				c.Cut(f, "delete(p.Keys, old version)", dels, nfGCallOK(f, `^keysutil\.\(\*Policy\)\.storeArchive$`), nil)
+				c.Cut(f, "delete(p.Keys, old version)", dels, c17GCallOK(f, `^keysutil\.\(\*Policy\)\.storeArchive$`), nil)
 			}
 			// deleted versions are below MinDecryptionVersion
 			c.Cut(f, "delete(p.Keys, old version)", dels, c17guard("i < MinDecryptionVersion", c17rel(f, false, func(ssa.Value) bool { return true }, ld(F.minDec), true)), nil)
@@ -1752,7 +1775,7 @@ func c17durable(c *eng.Ctx, F *c17fields) {
 		if c.Floor(f, "mutations", len(muts), 4) {
 			c17rollbackChecks(c, f, "C17.3", []*types.Var{F.latest, F.minDec, F.keys}, muts, "the first mutation", nil)
 			c.Clause("R2", "C17.3")
-			pOK := nfGCallOK(f, persistPat)
+			pOK := c17GCallOK(f, persistPat)
 			c.Cut(f, "nil return", eng.SuccessReturns(f, 0), eng.Or(eng.Guard{Desc: pOK.Desc, Edges: pOK.Edges}, c17guard("nothing to persist (boolean flag false)", c17boolPhiEdges(f, false))), nil)
 		}
 	}
@@ -1784,7 +1807,7 @@ func c17durable(c *eng.Ctx, F *c17fields) {
 				}
 			}
 			c.Clause("R2", "C17.3")
-			c.Cut(f, "restored policy persisted", ps, eng.Or(nfGCallOK(f, `^keysutil\.\(\*Policy\)\.storeArchive$`), eng.G(f, `\.ArchivedKeys == nil$`, true)), nil)
+			c.Cut(f, "restored policy persisted", ps, eng.Or(c17GCallOK(f, `^keysutil\.\(\*Policy\)\.storeArchive$`), eng.G(f, `\.ArchivedKeys == nil$`, true)), nil)
 		}
 	}
 	if f := c.Fn("keysutil.(*Policy).Backup"); f != nil {
@@ -2046,7 +2069,7 @@ func c17config(c *eng.Ctx, F *c17fields) {
 			}
 		}
 		if c.Floor(f, "success returns after Persist", len(okRets), 1) {
-			c.Cut(f, "success after Persist", okRets, nfGCallOK(f, `^logical\.EndTxStorage$`), nil)
+			c.Cut(f, "success after Persist", okRets, c17GCallOK(f, `^logical\.EndTxStorage$`), nil)
 		}
 	}
 	// trim
